@@ -61,7 +61,7 @@ class C13(Monitor):
             anon = rnd.random() < 0.12
             if t < 0.25:
                 n += 1
-                rid = rnd.choice(["id%d" % n, "id%d" % n, None, n])
+                rid = rnd.choice(["id%d" % n, "id%d" % n, None, n, "", 0])      # falsy but non-null ids are ids too
                 steps.append(["api", "addExcludeRegion", payload_of(rand_shape(rnd), rid), anon])
                 if rid is not None and not anon:
                     ids.append(rid)
